@@ -34,7 +34,7 @@ def cases(tier, seed, info):
     info['callout_shapes_from_tlc'] = len(shapes)
     rng = random.Random(seed + 3)
     rng.shuffle(shapes)
-    reps = 1 if tier == 'quick' else 12
+    reps = 1 if tier == 'quick' else 60
     items = []
     pos = 0
     total = len(shapes) * reps
@@ -45,7 +45,7 @@ def cases(tier, seed, info):
         pos += max(n, 1) if n else 0
         items.append(dict(shapes=sh, k=k))
         k += 1
-    for j in range(64 if tier == 'quick' else 1500):      # no callout subsection at all
+    for j in range(64 if tier == 'quick' else 6000):      # no callout subsection at all
         items.append(dict(shapes=None, k=k + j))
     out = [dict(seed=seed * 8191 + j, items=items[j:j + 20]) for j in range(0, len(items), 20)]
     info['pels'] = len(items)
